@@ -23,9 +23,9 @@ const BASE_ASSUME: &[&str] = &[
 fn spec(id: &str) -> Option<Spec> {
     Some(match id {
         "C01" => Spec {
-            run: runners_obs::run_c01,
+            run: runners_thr::run_c01,
             level: "exploration",
-            rule: "call histories on the real Observable / SharedObservable (sync flavour) with a payload whose hash ignores one field; every return value and every poll result is compared with a version-counter model (value, version, per-subscriber observed version). Exhaustive over short sequences of the ~35-operation state-dependent alphabet, random long histories with <=5 subscribers, <=4 clones, write/read guards. Non-trivial = the history contains a Ready poll, a Pending poll and a conditional setter that did not store; distinct = hash of the history.",
+            rule: "call histories on the real Observable / SharedObservable (sync flavour) with a payload whose hash ignores one field; every return value and every poll result is compared with a version-counter model (value, version, per-subscriber observed version). Exhaustive over short sequences of the ~35-operation state-dependent alphabet, random long histories with <=5 subscribers, <=4 clones, write/read guards; plus a director scenario (subscribe + first poll on one thread || write accesses that do not notify on another, every order at the pause points). Non-trivial = the history contains a Ready poll, a Pending poll and a conditional setter that did not store; distinct = hash of the history.",
             assumptions: BASE_ASSUME,
         },
         "C16" => Spec {
